@@ -153,3 +153,36 @@ def gss_handler_table(prog):
     if not out:
         raise AnalysisError("GssapiWithMicAuthHandler", "dispatch table not found in either recognised form")
     return out
+
+
+def async_status_discipline(prog):
+    """How SFTPFile._async_response treats a STATUS reply.  Returns dict(ok_saved, absorbed, unregisters, detail):
+    ok_saved     the last handler around _convert_status is `except Exception as e` and stores e, unfiltered, on
+                 every path;
+    absorbed     exception classes an earlier handler swallows (only EOFError is acceptable: an ordinary read at that
+                 position reports end of file by itself);
+    unregisters  every normal exit of the function has removed the request from _prefetch_extents (so the prefetch
+                 wait ends through _prefetch_done even when nothing was saved)."""
+    import ast as _ast
+    ar = prog.func("SFTPFile._async_response")
+    fa = Flow(prog, ar, env={"t == CMD_STATUS": True}, implicit=True)      # exception edges make the handlers reachable
+    num = ar.params()[3]
+    conv = [c for (n, c) in fa.nodes_with_call(attr="_convert_status")]
+    hs = [h for h in fa.cfg.nodes if h.kind == "except" and h.id in fa.live]
+    ok_saved = False
+    absorbed = []
+    detail = "handlers: %s" % [unparse(h.ast.type) if h.ast.type is not None else "bare" for h in hs]
+    if len(conv) == 1 and hs:
+        last = hs[-1]
+        save = fa.nodes(lambda x: x.kind == "stmt" and isinstance(x.ast, _ast.Assign) and unparse(x.ast.targets[0]) == "self._saved_exception")
+        ok_saved = last.ast.type is not None and unparse(last.ast.type) == "Exception" and last.ast.name is not None and len(save) == 1 \
+            and unparse(save[0].ast.value) == last.ast.name and \
+            fa.cfg.dominated([fa.cfg.exit.id], guard_nodes=[save[0].id], start=[last.id])
+        for h in hs[:-1]:
+            names = [unparse(h.ast.type)] if not isinstance(h.ast.type, _ast.Tuple) else [unparse(e) for e in h.ast.type.elts]
+            body_ok = all(isinstance(s, _ast.Pass) for s in h.ast.body)
+            absorbed += names if body_ok else ["%s (handler does more than pass)" % n_ for n_ in names]
+    fall = Flow(prog, ar, implicit=False)
+    deln = fall.nodes(lambda n: n.kind == "stmt" and isinstance(n.ast, _ast.Delete) and unparse(n.ast.targets[0]) == "self._prefetch_extents[%s]" % num)
+    unregisters = bool(deln) and fall.exit_dominated(guard_nodes=deln)
+    return {"ok_saved": ok_saved, "absorbed": absorbed, "unregisters": unregisters, "detail": detail, "loc": ar.loc}
